@@ -145,11 +145,422 @@ type c11xTaskTmpl struct {
 	order  []int // base order over the universe
 }
 
-func TestVerifC11Rounds(t *testing.T) {
-	h := vOpen("C11")
-	if h == nil {
-		t.Skip("VERIF_OUT not set")
+type c11xRTask struct {
+	to   [][2]int64
+	pods []int
+}
+
+// one history: static part + a callback that yields the inputs of round rd given the Evict calls of round rd-1
+type c11xPlan struct {
+	nPods            int
+	fields           [][4]int64
+	onlyAPI, started bool
+	nRounds          int
+	tmpl             []c11xTaskTmpl
+	round            func(rd int, prev []c11Call) (rts []c11xRTask, script []int)
+}
+
+// c11xRun drives the real executor through the planned history, emits ops / observations and evaluates the
+// property oracle over the whole history.  The caller has called h.Begin; c11xRun calls h.End.
+func c11xRun(h *vHarness, t *testing.T, plan *c11xPlan) {
+	caseStart := time.Now()
+	nPods, fields, onlyAPI, started, nRounds, tmpl := plan.nPods, plan.fields, plan.onlyAPI, plan.started, plan.nRounds, plan.tmpl
+	nTasks := len(tmpl)
+	// ---- the real executor
+	api := &c11xAPI{}
+	client := clientsetfake.NewSimpleClientset()
+	client.PrependReactor("create", "pods", api.react)
+	rec := &c11xRecorder{}
+	version := policyv1.SchemeGroupVersion.Version
+	evictor := NewEvictor(client, rec, version)
+	stop := make(chan struct{})
+	if started {
+		if err := evictor.Start(stop); err != nil {
+			t.Fatal(err)
+		}
 	}
+	inner := InitializeEvictionExecutor(evictor, onlyAPI)
+	if _, isDefault := inner.(*DefaultEvictionExecutor); !isDefault {
+		t.Fatalf("a custom eviction executor initializer is installed")
+	}
+	h.Op("xcfg %d %d %d", vB(onlyAPI), vB(started), c11xTTLSeconds)
+	h.Tag(fmt.Sprintf("mode:api=%v,started=%v", onlyAPI, started))
+	h.Tag(fmt.Sprintf("rounds:%d", nRounds))
+
+	mkPod := func(p int) *corev1.Pod {
+		return &corev1.Pod{ObjectMeta: metav1.ObjectMeta{Namespace: "ns", Name: fmt.Sprintf("p%d", p), UID: types.UID(fmt.Sprintf("u%d", p))}}
+	}
+
+	// ---- oracle state over the history (independent of the implementation)
+	succ := map[int]bool{}       // an eviction API call for the pod succeeded in an earlier round (started executor, API mode)
+	lastFailed := map[int]bool{} // the pod's most recent eviction call failed and none succeeded since
+	retryScenario, pendingSeen := false, false
+
+	var prevCalls []c11Call
+	for rd := 0; rd < nRounds; rd++ {
+		rts, script := plan.round(rd, prevCalls)
+		var real []*EvictTaskInfo
+		for ti, tk := range tmpl {
+			tk := tk
+			et := &EvictTaskInfo{Reason: fmt.Sprintf("t%d", ti), ReleaseTarget: c11Targets[tk.target], ToReleaseResource: corev1.ResourceList{}}
+			for _, ra := range rts[ti].to {
+				et.ToReleaseResource[c11ResNames[ra[0]]] = c11Qty(int(ra[0]), ra[1])
+			}
+			et.GetPodResourceFunc = func(info *PodEvictInfo) corev1.ResourceList {
+				rl := corev1.ResourceList{}
+				for _, rf := range tk.fn {
+					rl[c11ResNames[rf[0]]] = c11Qty(rf[0], c11Field(info, rf[1]))
+				}
+				return rl
+			}
+			for _, p := range rts[ti].pods {
+				et.SortedEvictPods = append(et.SortedEvictPods, &PodEvictInfo{Pod: mkPod(p),
+					MilliCPURequest: fields[p][0], MilliCPUUsed: fields[p][1], MemoryRequest: fields[p][2], MemoryUsed: fields[p][3]})
+			}
+			real = append(real, et)
+		}
+
+		// -- ops
+		for ti, tk := range tmpl {
+			var xs []int64
+			for _, ra := range rts[ti].to {
+				xs = append(xs, ra[0], ra[1])
+			}
+			for _, rf := range tk.fn {
+				xs = append(xs, int64(rf[0]), int64(rf[1]))
+			}
+			for _, p := range rts[ti].pods {
+				xs = append(xs, int64(p), fields[p][0], fields[p][1], fields[p][2], fields[p][3])
+			}
+			h.Op("task %d %d %d %d %s", tk.target, len(rts[ti].to), len(tk.fn), len(rts[ti].pods), vInts(xs))
+		}
+		sc := make([]int64, len(script))
+		for i, c := range script {
+			sc[i] = int64(vB(c == 0))
+		}
+		h.Op("script %d %s", len(sc), vInts(sc))
+		h.Op("round 0") // the whole history runs within the TTL (checked below), so model time stands still
+
+		// -- run the real code
+		api.script, api.calls = script, nil
+		rec.ok, rec.fail, rec.other = 0, 0, 0
+		ex := &c11xExec{inner: inner}
+		var released ReleaseList
+		var newly bool
+		if h.Guard(func() { released, newly = KillAndEvictPods(ex, &corev1.Node{}, real) }) {
+			h.Obs("panic")
+			h.Fail("C11:panic", "KillAndEvictPods panicked in round %d", rd)
+			break
+		}
+		for _, c := range ex.calls {
+			h.Obs("evict %d %d %d", c.task, c.pod, vB(c.ok))
+		}
+		type kv struct {
+			t, r int
+			v    int64
+		}
+		var rel []kv
+		relAt := map[[2]int]int64{}
+		for tt, rl := range released {
+			for rn, q := range rl {
+				ti, ri := c11TargetIdx(tt), c11ResIdx(rn)
+				v := c11QtyInt(ri, q)
+				relAt[[2]int{ti, ri}] = v
+				if v != 0 {
+					rel = append(rel, kv{ti, ri, v})
+				}
+			}
+		}
+		sort.Slice(rel, func(i, j int) bool { return rel[i].t < rel[j].t || (rel[i].t == rel[j].t && rel[i].r < rel[j].r) })
+		for _, x := range rel {
+			h.Obs("rel %d %d %d", x.t, x.r, x.v)
+		}
+		h.Obs("newly %d", vB(newly))
+		h.Obs("api %d", len(api.calls))
+		doneImpl := make([]bool, nTasks)
+		for ti, et := range real {
+			doneImpl[ti], _ = EvictTaskCheck(et, released)
+			h.Obs("done %d %d", ti, vB(doneImpl[ti]))
+		}
+		var all []int64
+		for p := 0; p < nPods; p++ {
+			all = append(all, int64(p))
+		}
+		h.Op("iscached 0 %s", vInts(all))
+		var cachedL []string
+		cachedNow := map[int]bool{}
+		for p := 0; p < nPods; p++ {
+			if inner.IsPodEvicted(mkPod(p)) {
+				cachedL = append(cachedL, strconv.Itoa(p))
+				cachedNow[p] = true
+			}
+		}
+		h.Obs("%s", strings.Join(append([]string{"cached"}, cachedL...), " "))
+		if ex.bad {
+			h.Fail("C11:harness-reason", "could not attribute an Evict call to a task")
+		}
+		for _, c := range api.calls {
+			h.Tag("api-code:" + c11xCodeNames[c.code])
+		}
+
+		// ================= property oracle over the history =================
+		legit := func(p int) bool { return onlyAPI && started && succ[p] } // truly evicted earlier, still terminating
+		own := func(k, p, res int) int64 {
+			for _, rf := range tmpl[k].fn {
+				if rf[0] == res {
+					return fields[p][rf[1]]
+				}
+			}
+			return 0
+		}
+		// what pod p's removal credits toward (target, res): every task of that target reads the pod once, max wins
+		agg := func(target, p, res int) int64 {
+			var m int64
+			for k := range tmpl {
+				if tmpl[k].target == target {
+					if v := own(k, p, res); v > m {
+						m = v
+					}
+				}
+			}
+			return m
+		}
+		counted := map[int]bool{}
+		var countedL []int
+		count := func(p int) {
+			if !counted[p] {
+				counted[p] = true
+				countedL = append(countedL, p)
+			}
+		}
+		short := func(k int) []int {
+			var out []int
+			for _, ra := range rts[k].to {
+				var sum int64
+				for _, p := range countedL {
+					sum += agg(tmpl[k].target, p, int(ra[0]))
+				}
+				if ra[1] > sum {
+					out = append(out, int(ra[0]))
+				}
+			}
+			return out
+		}
+		// executor-level facts of this round
+		if onlyAPI {
+			if len(api.calls) != len(ex.calls) {
+				h.Fail("C11:executor-api-mismatch", "round %d: %d Evict calls but %d eviction API calls", rd, len(ex.calls), len(api.calls))
+			} else {
+				for i, c := range ex.calls {
+					a := api.calls[i]
+					if a.pod != c.pod || a.uid != fmt.Sprintf("u%d", c.pod) {
+						h.Fail("C11:executor-api-mismatch", "round %d: Evict(pod %d) called the API for pod %d uid %q", rd, c.pod, a.pod, a.uid)
+					}
+					if c.ok != (a.code == 0) {
+						h.Fail("C11:executor-result-mismatch", "round %d: eviction API answered %s for pod %d but Evict returned %v", rd, c11xCodeNames[a.code], c.pod, c.ok)
+					}
+				}
+			}
+		} else if len(api.calls) != 0 {
+			h.Fail("C11:executor-api-mismatch", "round %d: %d eviction API calls without OnlyEvictByAPI", rd, len(api.calls))
+		}
+		// across rounds: never again a pod whose eviction already succeeded
+		for _, c := range ex.calls {
+			if legit(c.pod) {
+				h.Fail("C11:evicted-twice-across-rounds", "round %d: pod %d handed to Evict again although its eviction succeeded in an earlier round", rd, c.pod)
+			}
+		}
+		// walk every task's published list as the property reads it
+		ci := 0 // next unconsumed call
+		desync := false
+		okThis := map[int]bool{}
+		failedNow := map[int]bool{} // an eviction call for the pod failed earlier in this round (another task)
+		for k := 0; k < nTasks && !desync; k++ {
+			if len(short(k)) == 0 {
+				if ci < len(ex.calls) && ex.calls[ci].task == k {
+					h.Fail("C11:evict-after-met", "round %d task %d: pod %d evicted although the target is already covered", rd, k, ex.calls[ci].pod)
+					desync = true
+				}
+				continue
+			}
+			for _, p := range rts[k].pods {
+				if counted[p] {
+					continue
+				}
+				if legit(p) {
+					count(p) // still terminating: pending release
+					pendingSeen = true
+					if len(short(k)) == 0 {
+						break
+					}
+					continue
+				}
+				// the target is uncovered and p is the next pod in published order: it has to be tried now
+				if ci >= len(ex.calls) || ex.calls[ci].task != k || ex.calls[ci].pod != p {
+					if lastFailed[p] || failedNow[p] {
+						h.Fail("C11:failed-eviction-not-retried", "round %d task %d: pod %d (its last eviction call failed) is next in the published order, the target is uncovered, but it was not tried", rd, k, p)
+					} else {
+						h.Fail("C11:skipped-candidate", "round %d task %d: pod %d is next in the published order, the target is uncovered, but it was not tried", rd, k, p)
+					}
+					desync = true
+					break
+				}
+				c := ex.calls[ci]
+				ci++
+				if lastFailed[p] || failedNow[p] {
+					retryScenario = true
+				}
+				if !c.ok {
+					failedNow[p] = true
+				}
+				if c.ok {
+					okThis[p] = true
+					count(p)
+					if len(short(k)) == 0 {
+						break
+					}
+				}
+			}
+			if !desync && ci < len(ex.calls) && ex.calls[ci].task == k {
+				c := ex.calls[ci]
+				if len(short(k)) == 0 {
+					h.Fail("C11:evict-after-met", "round %d task %d: pod %d evicted although the target is already covered", rd, k, c.pod)
+				} else if counted[c.pod] {
+					h.Fail("C11:double-evict", "round %d task %d: pod %d passed to Evict after it was evicted / counted", rd, k, c.pod)
+				} else {
+					h.Fail("C11:out-of-order", "round %d task %d: pod %d evicted out of the published order", rd, k, c.pod)
+				}
+				desync = true
+			}
+		}
+		if !desync && ci < len(ex.calls) {
+			h.Fail("C11:out-of-order", "round %d: Evict call for task %d after its turn", rd, ex.calls[ci].task)
+			desync = true
+		}
+		anyOK := false
+		for _, c := range ex.calls {
+			anyOK = anyOK || c.ok
+		}
+		if newly != anyOK {
+			h.Fail("C11:newly-flag", "round %d: newlyEvicted=%v but successful evictions=%v", rd, newly, anyOK)
+		}
+		// accounting: what the round reports as released
+		overFP := "C11:release-overcounted" // credited more than evicted; by name when a failed pod is around
+		for k2 := range tmpl {
+			for _, p := range rts[k2].pods {
+				if (lastFailed[p] || failedNow[p]) && !legit(p) && !okThis[p] {
+					overFP = "C11:failed-eviction-credited"
+				}
+			}
+		}
+		for _, c := range ex.calls {
+			if !c.ok {
+				overFP = "C11:failed-eviction-credited"
+			}
+		}
+		seenKey := map[[2]int]bool{}
+		for k := range tmpl {
+			for _, ra := range rts[k].to {
+				key := [2]int{tmpl[k].target, int(ra[0])}
+				if seenKey[key] {
+					continue
+				}
+				seenKey[key] = true
+				got := relAt[key]
+				if !desync {
+					var want int64
+					for _, p := range countedL {
+						want += agg(key[0], p, key[1])
+					}
+					if got < want {
+						h.Fail("C11:release-undercounted", "round %d target %d res %d: returned %d < released by victims and terminating pods %d", rd, key[0], key[1], got, want)
+					} else if got > want {
+						h.Fail(overFP, "round %d target %d res %d: returned %d > %d = what the successful victims and the truly evicted (terminating) pods release", rd, key[0], key[1], got, want)
+					}
+				}
+				// upper bound that needs no walk: nothing is credited but this round's successful victims and listed pods evicted earlier
+				var ub int64
+				seenP := map[int]bool{}
+				for _, c := range ex.calls {
+					if c.ok && !seenP[c.pod] {
+						seenP[c.pod] = true
+						ub += agg(key[0], c.pod, key[1])
+					}
+				}
+				for k2 := range tmpl {
+					for _, p := range rts[k2].pods {
+						if legit(p) && !seenP[p] {
+							seenP[p] = true
+							ub += agg(key[0], p, key[1])
+						}
+					}
+				}
+				if got > ub {
+					h.Fail(overFP, "round %d target %d res %d: returned %d > %d although only successful victims and pods evicted earlier may be credited", rd, key[0], key[1], got, ub)
+				}
+			}
+		}
+		// EvictTaskCheck must agree with the returned list
+		for k := range tmpl {
+			want := true
+			for _, ra := range rts[k].to {
+				if ra[1] > relAt[[2]int{tmpl[k].target, int(ra[0])}] {
+					want = false
+				}
+			}
+			if doneImpl[k] != want {
+				h.Fail("C11:task-check", "round %d task %d: EvictTaskCheck=%v but the returned list says %v", rd, k, doneImpl[k], want)
+			}
+		}
+		// executor state: evicted == an eviction call for the pod succeeded (within the TTL)
+		for p := 0; p < nPods; p++ {
+			should := onlyAPI && started && (succ[p] || okThis[p] || func() bool {
+				for _, c := range ex.calls {
+					if c.pod == p && c.ok {
+						return true
+					}
+				}
+				return false
+			}())
+			if cachedNow[p] && !should {
+				h.Fail("C11:failed-eviction-credited", "round %d: IsPodEvicted(pod %d) although no eviction call for it ever succeeded", rd, p)
+			}
+			if !cachedNow[p] && should {
+				h.Fail("C11:evicted-pod-forgotten", "round %d: IsPodEvicted(pod %d) is false although its eviction succeeded within the TTL", rd, p)
+			}
+		}
+
+		// -- history bookkeeping
+		for _, c := range ex.calls {
+			if c.ok {
+				if onlyAPI {
+					succ[c.pod] = true
+				}
+				lastFailed[c.pod] = false
+			} else {
+				lastFailed[c.pod] = true
+			}
+		}
+		prevCalls = ex.calls
+		h.Tag(fmt.Sprintf("calls-in-round:%d", len(ex.calls)))
+	}
+	close(stop)
+	if time.Since(caseStart) > time.Duration(c11xTTLSeconds/2)*time.Second {
+		h.Fail("C11:harness-ttl", "a case took more than half the cache TTL; model time 0 is no longer valid")
+	}
+	if retryScenario {
+		h.Tag("scenario:failed-then-retried")
+	}
+	if pendingSeen {
+		h.Tag("scenario:pending-credit-across-rounds")
+	}
+	if retryScenario || pendingSeen {
+		h.Nontrivial()
+	}
+	h.End()
+}
+
+func c11xQuietLogs() {
 	// keep the real code's logging out of the test output
 	fs := flag.NewFlagSet("klog", flag.ContinueOnError)
 	klog.InitFlags(fs)
@@ -157,14 +568,20 @@ func TestVerifC11Rounds(t *testing.T) {
 	_ = fs.Set("alsologtostderr", "false")
 	_ = fs.Set("stderrthreshold", "FATAL")
 	klog.SetOutput(io.Discard)
+}
 
+func TestVerifC11Rounds(t *testing.T) {
+	h := vOpen("C11")
+	if h == nil {
+		t.Skip("VERIF_OUT not set")
+	}
+	c11xQuietLogs()
 	n := h.N(3000, 60000)
 	for idx := 0; idx < n; idx++ {
 		r := h.Begin(idx)
 		if r == nil {
 			continue
 		}
-		caseStart := time.Now()
 		nPods := r.Range(2, 6)
 		fields := make([][4]int64, nPods)
 		for i := range fields {
@@ -211,44 +628,31 @@ func TestVerifC11Rounds(t *testing.T) {
 			linger[p] = []int{0, 1, 1, 2, 9}[r.Intn(5)]
 		}
 
-		// ---- the real executor
-		api := &c11xAPI{}
-		client := clientsetfake.NewSimpleClientset()
-		client.PrependReactor("create", "pods", api.react)
-		rec := &c11xRecorder{}
-		version := policyv1.SchemeGroupVersion.Version
-		evictor := NewEvictor(client, rec, version)
-		stop := make(chan struct{})
-		if started {
-			if err := evictor.Start(stop); err != nil {
-				t.Fatal(err)
+		succW := map[int]bool{}     // world: the pod's eviction succeeded (it is terminating)
+		goneAfter := map[int]int{} // round index after which a successfully evicted pod disappears
+		plan := &c11xPlan{nPods: nPods, fields: fields, onlyAPI: onlyAPI, started: started, nRounds: nRounds, tmpl: tmpl}
+		plan.round = func(rd int, prev []c11Call) ([]c11xRTask, []int) {
+			if rd > 0 { // the world between rounds
+				for _, c := range prev {
+					if c.ok && onlyAPI && !succW[c.pod] {
+						succW[c.pod] = true
+						goneAfter[c.pod] = rd - 1 + linger[c.pod]
+					}
+				}
+				for p := 0; p < nPods; p++ {
+					if succW[p] && rd-1 >= goneAfter[p] {
+						present[p] = false // terminated
+					} else if !succW[p] {
+						if present[p] && r.Chance(1, 14) {
+							present[p] = false // deleted by someone else
+						} else if !present[p] && r.Chance(1, 4) {
+							present[p] = true // (re)appears
+						}
+					}
+				}
 			}
-		}
-		inner := InitializeEvictionExecutor(evictor, onlyAPI)
-		if _, isDefault := inner.(*DefaultEvictionExecutor); !isDefault {
-			t.Fatalf("a custom eviction executor initializer is installed")
-		}
-		h.Op("xcfg %d %d %d", vB(onlyAPI), vB(started), c11xTTLSeconds)
-		h.Tag(fmt.Sprintf("mode:api=%v,started=%v", onlyAPI, started))
-		h.Tag(fmt.Sprintf("rounds:%d", nRounds))
-
-		mkPod := func(p int) *corev1.Pod {
-			return &corev1.Pod{ObjectMeta: metav1.ObjectMeta{Namespace: "ns", Name: fmt.Sprintf("p%d", p), UID: types.UID(fmt.Sprintf("u%d", p))}}
-		}
-
-		// ---- oracle state over the history (independent of the implementation)
-		succ := map[int]bool{}       // an eviction API call for the pod succeeded in an earlier round (started executor, API mode)
-		lastFailed := map[int]bool{} // the pod's most recent eviction call failed and none succeeded since
-		goneAfter := map[int]int{}   // round index after which a successfully evicted pod disappears
-		retryScenario, pendingSeen := false, false
-
-		for rd := 0; rd < nRounds; rd++ {
 			// -- this round's lists and targets
-			type rtask struct {
-				to   [][2]int64
-				pods []int
-			}
-			rts := make([]rtask, nTasks)
+			rts := make([]c11xRTask, nTasks)
 			total := 0
 			for ti, tk := range tmpl {
 				if r.Chance(1, 5) {
@@ -286,369 +690,59 @@ func TestVerifC11Rounds(t *testing.T) {
 				script = nil // no API call is ever made
 			}
 
-			var real []*EvictTaskInfo
-			for ti, tk := range tmpl {
-				tk := tk
-				et := &EvictTaskInfo{Reason: fmt.Sprintf("t%d", ti), ReleaseTarget: c11Targets[tk.target], ToReleaseResource: corev1.ResourceList{}}
-				for _, ra := range rts[ti].to {
-					et.ToReleaseResource[c11ResNames[ra[0]]] = c11Qty(int(ra[0]), ra[1])
-				}
-				et.GetPodResourceFunc = func(info *PodEvictInfo) corev1.ResourceList {
-					rl := corev1.ResourceList{}
-					for _, rf := range tk.fn {
-						rl[c11ResNames[rf[0]]] = c11Qty(rf[0], c11Field(info, rf[1]))
-					}
-					return rl
-				}
-				for _, p := range rts[ti].pods {
-					et.SortedEvictPods = append(et.SortedEvictPods, &PodEvictInfo{Pod: mkPod(p),
-						MilliCPURequest: fields[p][0], MilliCPUUsed: fields[p][1], MemoryRequest: fields[p][2], MemoryUsed: fields[p][3]})
-				}
-				real = append(real, et)
-			}
-
-			// -- ops
-			for ti, tk := range tmpl {
-				var xs []int64
-				for _, ra := range rts[ti].to {
-					xs = append(xs, ra[0], ra[1])
-				}
-				for _, rf := range tk.fn {
-					xs = append(xs, int64(rf[0]), int64(rf[1]))
-				}
-				for _, p := range rts[ti].pods {
-					xs = append(xs, int64(p), fields[p][0], fields[p][1], fields[p][2], fields[p][3])
-				}
-				h.Op("task %d %d %d %d %s", tk.target, len(rts[ti].to), len(tk.fn), len(rts[ti].pods), vInts(xs))
-			}
-			sc := make([]int64, len(script))
-			for i, c := range script {
-				sc[i] = int64(vB(c == 0))
-			}
-			h.Op("script %d %s", len(sc), vInts(sc))
-			h.Op("round 0") // the whole history runs within the TTL (checked below), so model time stands still
-
-			// -- run the real code
-			api.script, api.calls = script, nil
-			rec.ok, rec.fail, rec.other = 0, 0, 0
-			ex := &c11xExec{inner: inner}
-			var released ReleaseList
-			var newly bool
-			if h.Guard(func() { released, newly = KillAndEvictPods(ex, &corev1.Node{}, real) }) {
-				h.Obs("panic")
-				h.Fail("C11:panic", "KillAndEvictPods panicked in round %d", rd)
-				break
-			}
-			for _, c := range ex.calls {
-				h.Obs("evict %d %d %d", c.task, c.pod, vB(c.ok))
-			}
-			type kv struct {
-				t, r int
-				v    int64
-			}
-			var rel []kv
-			relAt := map[[2]int]int64{}
-			for tt, rl := range released {
-				for rn, q := range rl {
-					ti, ri := c11TargetIdx(tt), c11ResIdx(rn)
-					v := c11QtyInt(ri, q)
-					relAt[[2]int{ti, ri}] = v
-					if v != 0 {
-						rel = append(rel, kv{ti, ri, v})
-					}
-				}
-			}
-			sort.Slice(rel, func(i, j int) bool { return rel[i].t < rel[j].t || (rel[i].t == rel[j].t && rel[i].r < rel[j].r) })
-			for _, x := range rel {
-				h.Obs("rel %d %d %d", x.t, x.r, x.v)
-			}
-			h.Obs("newly %d", vB(newly))
-			h.Obs("api %d", len(api.calls))
-			doneImpl := make([]bool, nTasks)
-			for ti, et := range real {
-				doneImpl[ti], _ = EvictTaskCheck(et, released)
-				h.Obs("done %d %d", ti, vB(doneImpl[ti]))
-			}
-			var all []int64
-			for p := 0; p < nPods; p++ {
-				all = append(all, int64(p))
-			}
-			h.Op("iscached 0 %s", vInts(all))
-			var cachedL []string
-			cachedNow := map[int]bool{}
-			for p := 0; p < nPods; p++ {
-				if inner.IsPodEvicted(mkPod(p)) {
-					cachedL = append(cachedL, strconv.Itoa(p))
-					cachedNow[p] = true
-				}
-			}
-			h.Obs("%s", strings.Join(append([]string{"cached"}, cachedL...), " "))
-			if ex.bad {
-				h.Fail("C11:harness-reason", "could not attribute an Evict call to a task")
-			}
-			for _, c := range api.calls {
-				h.Tag("api-code:" + c11xCodeNames[c.code])
-			}
-
-			// ================= property oracle over the history =================
-			legit := func(p int) bool { return onlyAPI && started && succ[p] } // truly evicted earlier, still terminating
-			own := func(k, p, res int) int64 {
-				for _, rf := range tmpl[k].fn {
-					if rf[0] == res {
-						return fields[p][rf[1]]
-					}
-				}
-				return 0
-			}
-			// what pod p's removal credits toward (target, res): every task of that target reads the pod once, max wins
-			agg := func(target, p, res int) int64 {
-				var m int64
-				for k := range tmpl {
-					if tmpl[k].target == target {
-						if v := own(k, p, res); v > m {
-							m = v
-						}
-					}
-				}
-				return m
-			}
-			counted := map[int]bool{}
-			var countedL []int
-			count := func(p int) {
-				if !counted[p] {
-					counted[p] = true
-					countedL = append(countedL, p)
-				}
-			}
-			short := func(k int) []int {
-				var out []int
-				for _, ra := range rts[k].to {
-					var sum int64
-					for _, p := range countedL {
-						sum += agg(tmpl[k].target, p, int(ra[0]))
-					}
-					if ra[1] > sum {
-						out = append(out, int(ra[0]))
-					}
-				}
-				return out
-			}
-			// executor-level facts of this round
-			if onlyAPI {
-				if len(api.calls) != len(ex.calls) {
-					h.Fail("C11:executor-api-mismatch", "round %d: %d Evict calls but %d eviction API calls", rd, len(ex.calls), len(api.calls))
-				} else {
-					for i, c := range ex.calls {
-						a := api.calls[i]
-						if a.pod != c.pod || a.uid != fmt.Sprintf("u%d", c.pod) {
-							h.Fail("C11:executor-api-mismatch", "round %d: Evict(pod %d) called the API for pod %d uid %q", rd, c.pod, a.pod, a.uid)
-						}
-						if c.ok != (a.code == 0) {
-							h.Fail("C11:executor-result-mismatch", "round %d: eviction API answered %s for pod %d but Evict returned %v", rd, c11xCodeNames[a.code], c.pod, c.ok)
-						}
-					}
-				}
-			} else if len(api.calls) != 0 {
-				h.Fail("C11:executor-api-mismatch", "round %d: %d eviction API calls without OnlyEvictByAPI", rd, len(api.calls))
-			}
-			// across rounds: never again a pod whose eviction already succeeded
-			for _, c := range ex.calls {
-				if legit(c.pod) {
-					h.Fail("C11:evicted-twice-across-rounds", "round %d: pod %d handed to Evict again although its eviction succeeded in an earlier round", rd, c.pod)
-				}
-			}
-			// walk every task's published list as the property reads it
-			ci := 0 // next unconsumed call
-			desync := false
-			okThis := map[int]bool{}
-			failedNow := map[int]bool{} // an eviction call for the pod failed earlier in this round (another task)
-			for k := 0; k < nTasks && !desync; k++ {
-				if len(short(k)) == 0 {
-					if ci < len(ex.calls) && ex.calls[ci].task == k {
-						h.Fail("C11:evict-after-met", "round %d task %d: pod %d evicted although the target is already covered", rd, k, ex.calls[ci].pod)
-						desync = true
-					}
-					continue
-				}
-				for _, p := range rts[k].pods {
-					if counted[p] {
-						continue
-					}
-					if legit(p) {
-						count(p) // still terminating: pending release
-						pendingSeen = true
-						if len(short(k)) == 0 {
-							break
-						}
-						continue
-					}
-					// the target is uncovered and p is the next pod in published order: it has to be tried now
-					if ci >= len(ex.calls) || ex.calls[ci].task != k || ex.calls[ci].pod != p {
-						if lastFailed[p] || failedNow[p] {
-							h.Fail("C11:failed-eviction-not-retried", "round %d task %d: pod %d (its last eviction call failed) is next in the published order, the target is uncovered, but it was not tried", rd, k, p)
-						} else {
-							h.Fail("C11:skipped-candidate", "round %d task %d: pod %d is next in the published order, the target is uncovered, but it was not tried", rd, k, p)
-						}
-						desync = true
-						break
-					}
-					c := ex.calls[ci]
-					ci++
-					if lastFailed[p] || failedNow[p] {
-						retryScenario = true
-					}
-					if !c.ok {
-						failedNow[p] = true
-					}
-					if c.ok {
-						okThis[p] = true
-						count(p)
-						if len(short(k)) == 0 {
-							break
-						}
-					}
-				}
-				if !desync && ci < len(ex.calls) && ex.calls[ci].task == k {
-					c := ex.calls[ci]
-					if len(short(k)) == 0 {
-						h.Fail("C11:evict-after-met", "round %d task %d: pod %d evicted although the target is already covered", rd, k, c.pod)
-					} else if counted[c.pod] {
-						h.Fail("C11:double-evict", "round %d task %d: pod %d passed to Evict after it was evicted / counted", rd, k, c.pod)
-					} else {
-						h.Fail("C11:out-of-order", "round %d task %d: pod %d evicted out of the published order", rd, k, c.pod)
-					}
-					desync = true
-				}
-			}
-			if !desync && ci < len(ex.calls) {
-				h.Fail("C11:out-of-order", "round %d: Evict call for task %d after its turn", rd, ex.calls[ci].task)
-				desync = true
-			}
-			anyOK := false
-			for _, c := range ex.calls {
-				anyOK = anyOK || c.ok
-			}
-			if newly != anyOK {
-				h.Fail("C11:newly-flag", "round %d: newlyEvicted=%v but successful evictions=%v", rd, newly, anyOK)
-			}
-			// accounting: what the round reports as released
-			seenKey := map[[2]int]bool{}
-			for k := range tmpl {
-				for _, ra := range rts[k].to {
-					key := [2]int{tmpl[k].target, int(ra[0])}
-					if seenKey[key] {
-						continue
-					}
-					seenKey[key] = true
-					got := relAt[key]
-					if !desync {
-						var want int64
-						for _, p := range countedL {
-							want += agg(key[0], p, key[1])
-						}
-						if got < want {
-							h.Fail("C11:release-undercounted", "round %d target %d res %d: returned %d < released by victims and terminating pods %d", rd, key[0], key[1], got, want)
-						} else if got > want {
-							h.Fail("C11:failed-eviction-credited", "round %d target %d res %d: returned %d > %d = what the successful victims and the truly evicted (terminating) pods release", rd, key[0], key[1], got, want)
-						}
-					}
-					// upper bound that needs no walk: nothing is credited but this round's successful victims and listed pods evicted earlier
-					var ub int64
-					seenP := map[int]bool{}
-					for _, c := range ex.calls {
-						if c.ok && !seenP[c.pod] {
-							seenP[c.pod] = true
-							ub += agg(key[0], c.pod, key[1])
-						}
-					}
-					for k2 := range tmpl {
-						for _, p := range rts[k2].pods {
-							if legit(p) && !seenP[p] {
-								seenP[p] = true
-								ub += agg(key[0], p, key[1])
-							}
-						}
-					}
-					if got > ub {
-						h.Fail("C11:failed-eviction-credited", "round %d target %d res %d: returned %d > %d although only successful victims and pods evicted earlier may be credited", rd, key[0], key[1], got, ub)
-					}
-				}
-			}
-			// EvictTaskCheck must agree with the returned list
-			for k := range tmpl {
-				want := true
-				for _, ra := range rts[k].to {
-					if ra[1] > relAt[[2]int{tmpl[k].target, int(ra[0])}] {
-						want = false
-					}
-				}
-				if doneImpl[k] != want {
-					h.Fail("C11:task-check", "round %d task %d: EvictTaskCheck=%v but the returned list says %v", rd, k, doneImpl[k], want)
-				}
-			}
-			// executor state: evicted == an eviction call for the pod succeeded (within the TTL)
-			for p := 0; p < nPods; p++ {
-				should := onlyAPI && started && (succ[p] || okThis[p] || func() bool {
-					for _, c := range ex.calls {
-						if c.pod == p && c.ok {
-							return true
-						}
-					}
-					return false
-				}())
-				if cachedNow[p] && !should {
-					h.Fail("C11:failed-eviction-credited", "round %d: IsPodEvicted(pod %d) although no eviction call for it ever succeeded", rd, p)
-				}
-				if !cachedNow[p] && should {
-					h.Fail("C11:evicted-pod-forgotten", "round %d: IsPodEvicted(pod %d) is false although its eviction succeeded within the TTL", rd, p)
-				}
-			}
-
-			// -- history bookkeeping and the world between rounds
-			for _, c := range ex.calls {
-				if c.ok {
-					if onlyAPI {
-						if !succ[c.pod] {
-							goneAfter[c.pod] = rd + linger[c.pod]
-						}
-						succ[c.pod] = true
-					}
-					lastFailed[c.pod] = false
-				} else {
-					lastFailed[c.pod] = true
-				}
-			}
-			for p := 0; p < nPods; p++ {
-				if succ[p] && rd >= goneAfter[p] {
-					present[p] = false // terminated
-				} else if !succ[p] {
-					if present[p] && r.Chance(1, 14) {
-						present[p] = false // deleted by someone else
-					} else if !present[p] && r.Chance(1, 4) {
-						present[p] = true // (re)appears
-					}
-				}
-			}
-			h.Tag(fmt.Sprintf("calls-in-round:%d", len(ex.calls)))
+			return rts, script
 		}
-		close(stop)
-		if time.Since(caseStart) > time.Duration(c11xTTLSeconds/2)*time.Second {
-			h.Fail("C11:harness-ttl", "a case took more than half the cache TTL; model time 0 is no longer valid")
-		}
-		if retryScenario {
-			h.Tag("scenario:failed-then-retried")
-		}
-		if pendingSeen {
-			h.Tag("scenario:pending-credit-across-rounds")
-		}
-		if retryScenario || pendingSeen {
-			h.Nontrivial()
-		}
-		h.End()
+		c11xRun(h, t, plan)
 	}
 	h.Close("2-5 consecutive KillAndEvictPods rounds over 2-6 pods against the real Evictor + DefaultEvictionExecutor (OnlyEvictByAPI true 3/4, " +
 		"Evictor started 9/10, default TTL) and a fake clientset whose eviction reactor answers ok/429/404/500/timeout/403/transport error from a " +
 		"script in five failure climates; 1-3 tasks (shared or distinct targets), per-round targets, orders re-drawn 1/5, pods terminating after a " +
 		"successful eviction for 0-9 rounds, vanishing and (re)appearing; non-trivial = a failed pod is retried in a later round or a pod evicted " +
 		"earlier is credited as pending; distinct by op lines")
+}
+
+// small-scope EXHAUSTIVE stream (thorough tier): 2 pods, 1 task over one resource, 2 rounds; every combination of
+// release amounts {0,1,2}^2, executor mode, per-round target {1,2,3}, per-round list ([], [0], [1], [0,1], [1,0]) and
+// (API mode) per-round outcomes of two eviction calls.
+func TestVerifC11RoundsExhaustive(t *testing.T) {
+	h := vOpen("C11")
+	if h == nil {
+		t.Skip("VERIF_OUT not set")
+	}
+	c11xQuietLogs()
+	lists := [][]int{{}, {0}, {1}, {0, 1}, {1, 0}}
+	perRoundAPI, perRoundKill := 3*5*4, 3*5
+	total := 9 * (perRoundAPI*perRoundAPI + perRoundKill*perRoundKill)
+	n := h.N(total, total)
+	for idx := 0; idx < n; idx++ {
+		if r := h.Begin(idx); r == nil {
+			continue
+		}
+		x := idx
+		f0, f1 := int64(x%3), int64(x/3%3)
+		x /= 9
+		onlyAPI := x < perRoundAPI*perRoundAPI
+		per := perRoundAPI
+		if !onlyAPI {
+			x -= perRoundAPI * perRoundAPI
+			per = perRoundKill
+		}
+		rx := [2]int{x % per, x / per}
+		plan := &c11xPlan{nPods: 2, fields: [][4]int64{{f0, 0, 0, 0}, {f1, 0, 0, 0}}, onlyAPI: onlyAPI, started: true, nRounds: 2,
+			tmpl: []c11xTaskTmpl{{target: 0, res: []int{1}, fn: [][2]int{{1, 0}}, order: []int{0, 1}}}}
+		plan.round = func(rd int, prev []c11Call) ([]c11xRTask, []int) {
+			y := rx[rd]
+			amt := int64(y%3 + 1)
+			l := lists[y/3%5]
+			var script []int
+			if onlyAPI {
+				o := y / 15
+				script = []int{1 - o%2, 1 - o/2%2} // 0 ok, 1 = 429
+			}
+			return []c11xRTask{{to: [][2]int64{{1, amt}}, pods: l}}, script
+		}
+		c11xRun(h, t, plan)
+	}
+	h.Close("exhaustive small scope: 2 pods x release {0,1,2}, 1 task, 2 rounds, target {1,2,3}, 5 lists, both executor modes, " +
+		"all outcomes of 2 eviction calls per round; non-trivial as in `rounds`")
 }
